@@ -49,10 +49,20 @@ R = {
  "C19r2_b": ("C19", "caught (after letting del_event fail in the close unit)", "C19.inv_after_close_no_stale_entry"),
  "C21r2_a": ("C21", "caught", "C21.close_leaves_no_record, C21.shutdown_interest_as_specified"),
  "C21r2_b": ("C21", "caught (after making the descriptor kind nondeterministic in the close unit)", "C21.close_leaves_no_record"),
- "C16r2_a": ("C17", "@C16r2_a@", "@C16r2_a_ob@"),
+ "C16r2_a": ("C17", "caught (3-entry units; same mechanism as C17_a)", "C17.range_already_transferred_or_out_of_order (c16_writev3)"),
  "C16r2_b": ("C16", "caught", "C16.return_value_is_total_bytes_moved, C16.minus_one_only_if_nothing_moved (write)"),
- "C18r2_a": ("C18", "@C18r2_a@", "@C18r2_a_ob@"),
- "C18r2_b": ("C18", "@C18r2_b@", "@C18r2_b_ob@"),
+ "C18r2_a": ("C18", "caught", "C18.nonblocking_descriptor_never_waits (c16_recvmsg)"),
+ "C18r2_b": ("C18", "caught (flags are symbolic)", "C18.blocking_mode_restored_on_return (c16_sendmsg)"),
+
+ "C09r2_a": ("C09", "caught", "C09.delay_request_does_not_outlive_its_yield"),
+ "C14r2_a": ("C14", "caught (coroutine caller explored since C14_a)", "C14.timed_wait_returns_only_at_or_after_the_deadline"),
+ "C14r2_b": ("C14", "missed", "{0 s, 4.5e6 us} is clamped to just under 1 s: still more than the 143 ms the bounded select units can observe (12 wait rounds); the conversion is inline in an unbounded loop"),
+ "C20r2_a": ("C20", "caught (after adding the wait_event unit)", "C20.every_round_polls_the_selector_once"),
+ "C20r2_b": ("C21", "caught by the C21 check (the stale write record breaks its invariant); the C20 units do not observe records", "C21.close_leaves_no_record, C21.inv_after"),
+ "C25r2_a": ("C25", "caught (after adding the zero-sized value unit)", "C25.values_dropped_with_owner"),
+ "C25r2_b": ("C25", "missed", "needs std::thread::panicking() during unwinding, which Kani does not model"),
+ "C28r2_a": ("C28", "caught", "C28.timeout_time_eq_saturating_spec / overflow check inside get_timeout_time"),
+ "C28r2_b": ("C28", "inconclusive (exit 2)", "the closed-form rewrite has no loop (the Verus splice anchor is gone) and in the Kani companion unit the back end ends with status ERROR on every check (128-bit div_ceil/% exhausts the solver); undecided, never an alarm"),
 }
 HERE = os.path.dirname(os.path.dirname(os.path.abspath(__file__)))
 rows = []
